@@ -111,7 +111,9 @@ func strVals() []value {
 }
 
 func kinds() []kind {
-	iv := func(bits int, signed bool) func() []value { return func() []value { return intVals(bits, signed, bits) } }
+	iv := func(bits int, signed bool) func() []value {
+		return func() []value { return intVals(bits, signed, bits) }
+	}
 	return []kind{
 		{"string", "string", "", strVals, false},
 		{"int", "int", "", iv(64, true), true},
@@ -306,26 +308,10 @@ func goParse(k string, raw string) string {
 	return ""
 }
 
-func Main(tier, replay string) {
-	run := core.NewRun("C05", tier)
-	scratch := scen.MkScratch("c05")
-	defer os.RemoveAll(scratch)
-	deadline := core.Deadline(tier, 12*time.Minute, 50*time.Minute)
-	cases, inf := buildCases(tier)
-	if replay != "" {
-		_, v := core.LoadReplay(replay)
-		id, _ := v.Case.(map[string]any)["id"].(string)
-		var sel []scen.Case
-		for _, c := range cases {
-			if c.ID == id {
-				sel = append(sel, c)
-			}
-		}
-		cases = sel
-	}
-	metas := map[string]reqMeta{}
+// makeReqsFor returns the request generator of the binding space; it records each request's meaning in metas.
+func makeReqsFor(inf map[string]caseInfo, metas map[string]reqMeta) func(scen.Case) []rt.Request {
 	var mu sync.Mutex
-	reqsFor := func(c scen.Case) []rt.Request {
+	return func(c scen.Case) []rt.Request {
 		mu.Lock()
 		defer mu.Unlock()
 		ci := inf[c.ID]
@@ -387,7 +373,7 @@ func Main(tier, replay string) {
 			} else {
 				mk(value{one, "exact", wantOne}, false)
 				mk(value{`{"a":"ü✓ \"q\"","n":0}`, "exact", `{"a":"ü✓ \"q\"","n":0}`}, false)
-				mk(value{`{"n":1}`, "reject", ""}, false)     // required field missing
+				mk(value{`{"n":1}`, "reject", ""}, false)          // required field missing
 				mk(value{`{"a":"x","n":-1}`, "reject", ""}, false) // gte=0 fails
 				mk(value{`{"a":5}`, "reject", ""}, false)
 				mk(value{`[1,2]`, "reject", ""}, false)
@@ -406,6 +392,33 @@ func Main(tier, replay string) {
 		mk(value{}, true)
 		return out
 	}
+}
+
+// Space exposes the binding scenarios and their requests (used by C12).
+func Space(tier string) ([]scen.Case, func(scen.Case) scen.Unit, func(scen.Case) []rt.Request) {
+	cases, inf := buildCases(tier)
+	return cases, instrument, makeReqsFor(inf, map[string]reqMeta{})
+}
+
+func Main(tier, replay string) {
+	run := core.NewRun("C05", tier)
+	scratch := scen.MkScratch("c05")
+	defer os.RemoveAll(scratch)
+	deadline := core.Deadline(tier, 12*time.Minute, 50*time.Minute)
+	cases, inf := buildCases(tier)
+	if replay != "" {
+		_, v := core.LoadReplay(replay)
+		id, _ := v.Case.(map[string]any)["id"].(string)
+		var sel []scen.Case
+		for _, c := range cases {
+			if c.ID == id {
+				sel = append(sel, c)
+			}
+		}
+		cases = sel
+	}
+	metas := map[string]reqMeta{}
+	reqsFor := makeReqsFor(inf, metas)
 	crs := rt.RunCases(scratch, cases, 40, 6, instrument, reqsFor, nil, rt.Flags{}, deadline)
 	bound, rejected, invoked, notAccepted := 0, 0, 0, 0
 	for _, cr := range crs {
